@@ -54,6 +54,7 @@ type target struct {
 	name string
 	n    int
 	lite bool // structured sets only (parameter sets that exist for one code path)
+	dense bool // only the dense structured sets, core entry points, no secondary axes (large n)
 	leaf func(c *engine.Chooser, scName string, cfg *scenarioCfg)
 }
 
@@ -119,6 +120,11 @@ func targets(tier string) []target {
 	big := bgvTarget(circ.BGVSpec{LogN: 5, NQ: 3, QBits: 60, NP: 1, PBits: 61, T: 65537})
 	big.lite = true
 	ts = append(ts, big)
+	// BGV 2x64, 60-bit Q primes, dense matrices: baby-step loops of 16 terms exceed the overflow margin (8 lazy
+	// products) so the mid-loop reductions of the lazy accumulators are needed for a correct result
+	big7 := bgvTarget(circ.BGVSpec{LogN: 7, NQ: 3, QBits: 60, NP: 1, PBits: 61, T: 65537})
+	big7.lite, big7.dense = true, true
+	ts = append(ts, big7)
 	return ts
 }
 
@@ -184,7 +190,15 @@ func scenarios(tier string) []engine.Scenario {
 					add(fam, toSets("sub", sets[lo:hi]), bound, entries)
 				}
 			}
-			if tier == "thorough" {
+			if tg.dense {
+				var ds []diagSet
+				for _, d := range structuredSets(tg.n) {
+					if len(d.idx) >= tg.n/2-1 {
+						ds = append(ds, d)
+					}
+				}
+				add("dense", ds, 0, []int{eEvaluateNew, eEvaluate, eMany2, eSeqNew2})
+			} else if tier == "thorough" {
 				add("structured", structuredSets(tg.n), 2, allEntries)
 			} else {
 				add("structured", structuredSets(tg.n), 1, allEntries)
